@@ -453,11 +453,23 @@ class Interp:
         elif isinstance(st, ast.Delete):
             self.trace.append(("del", U(st), st))
             for tg in st.targets:
-                if isinstance(tg, ast.Subscript) and not isinstance(tg.slice, ast.Slice):
+                if isinstance(tg, ast.Subscript) and isinstance(tg.slice, ast.Slice):
+                    if not self.strict:
+                        continue
+                    base = self.ev(tg.value)
+                    lo, hi, step = (None if x is None else self.ev(x) for x in (tg.slice.lower, tg.slice.upper, tg.slice.step))
+                    if not isinstance(base, list) or any(isinstance(v, Unknown) for v in (lo, hi, step)):
+                        raise AnalysisError(f"guard language: cannot delete the slice {U(tg)!r}")
+                    del base[lo:hi:step]
+                elif isinstance(tg, ast.Subscript):
                     try:
                         base, idx = self.ev(tg.value), self.ev(tg.slice)
                     except AnalysisError:
+                        if self.strict:
+                            raise
                         continue
+                    if self.strict and (not isinstance(base, (dict, list)) or isinstance(idx, Unknown)):
+                        raise AnalysisError(f"guard language: cannot delete {U(tg)!r}")
                     if isinstance(base, (dict, list)) and not isinstance(idx, Unknown):
                         try:
                             del base[idx]
@@ -466,6 +478,14 @@ class Interp:
                                 raise Flow("raise", f"{type(exc).__name__}({str(exc)})", st) from None
                 elif isinstance(tg, ast.Name) and tg.id in self.env:
                     del self.env[tg.id]
+                elif isinstance(tg, ast.Attribute) and self.strict:
+                    base = self.ev(tg.value)
+                    if isinstance(base, dict) and tg.attr in base:
+                        del base[tg.attr]
+                    else:
+                        raise AnalysisError(f"guard language: cannot delete {U(tg)!r}")
+                elif self.strict and not isinstance(tg, ast.Name):
+                    raise AnalysisError(f"guard language: cannot delete {U(tg)!r}")
         elif isinstance(st, ast.Assert) and self.loop_hook is not None:
             if not self.truth(self.ev(st.test), st.test):
                 raise Flow("raise", f"AssertionError({U(st.test)[:60]})", st)
